@@ -243,6 +243,22 @@ func checkC19(c *mc.Ctx) {
 			c19Parsers(c, st, refPk)
 		}
 	}
+	// a stream that ends in the middle of units: a PMT and a PAT section whose last packet never comes, a
+	// PES cut short - the packets that did arrive are a unit each, handed to the parser when the stream ends
+	{
+		ccs := []uint8{0, 3, 6}
+		pat := Packetize(PSIUnit(0, 0, [][]byte{SecPAT(modelPAT(1, 0x1000), ref.SecHdr{CNI: true})}, nil), nil, &ccs[0], true)
+		var args []uint16
+		for i := 0; i < 70; i++ {
+			args = append(args, uint16(i+1), uint16(0x1000+i))
+		}
+		pat2 := Packetize(PSIUnit(0, 0, [][]byte{SecPAT(modelPAT(args...), ref.SecHdr{CNI: true, Version: 1})}, nil), nil, &ccs[0], true)
+		pmt := Packetize(PSIUnit(0x1000, 0, [][]byte{SecPMT(modelPMT(1, 0x100, 60), ref.SecHdr{CNI: true})}, nil), nil, &ccs[1], true)
+		pes := Packetize(PESUnit(0x100, 0xe0, pesPayload(91, 500, c.Seed), 1, false), nil, &ccs[2], false)
+		ps := append(append(append(append([]*ref.Pkt{}, pat...), pes[:2]...), pmt[0]), pat2[0])
+		st := &Stream{Name: "cut-at-end-of-stream", Pkts: ps, Bytes: EncodePkts(ps)}
+		c19Parsers(c, st, ps)
+	}
 	// packets whose unit start was lost, in the middle and at the end of the stream, with payloads that
 	// look like a unit start: an observing parser must not change what is delivered for them (nothing)
 	{
@@ -488,7 +504,7 @@ func checkC20(c *mc.Ctx) {
 		depth = 8
 	}
 	streams := c19Streams(c.Seed)
-	streams = append(streams, &Stream{Name: "big-payloads", Bytes: BigPayloadStream(c.Seed)}, MultiSectionStream(c.Seed), NetworkPIDStream(c.Seed, 0x10), NetworkPIDStream(c.Seed, 0x50))
+	streams = append(streams, &Stream{Name: "big-payloads", Bytes: BigPayloadStream(c.Seed)}, MultiSectionStream(c.Seed), NetworkPIDStream(c.Seed, 0x10), NetworkPIDStream(c.Seed, 0x50), HeadlessStream(c.Seed))
 	for _, st0 := range streams {
 		for _, cfg := range []struct {
 			auto bool
